@@ -18,6 +18,7 @@ Oracle (the property text, independent of the model):
 """
 from __future__ import annotations
 
+import contextlib
 import datetime
 
 import appboot
@@ -153,7 +154,8 @@ def run_real(app, clock, case: dict) -> list:
             clock.set(r["now"])
         else:
             clock.set(c16_http.NOW)
-        resp = c.get(request_url(case, r))
+        with contextlib.redirect_stdout(c16_http._DEVNULL):
+            resp = c.get(request_url(case, r))
         body = resp.get_data(as_text=True) if resp.status_code != 200 else ""
         out.append((resp.status_code, body.startswith("Synthetic ")))
         resp.close()
